@@ -16,7 +16,7 @@ from ..core import sym
 from ..core.absint import Config, Interp
 from ..core.loader import AnalysisError, FunctionInfo, Project
 from ..core.values import Sc
-from .common import local_names, norm_construct, own_analysis
+from .common import expand_locals, fn_view, local_names, norm_construct, own_analysis
 
 CL = "persim.landscapes.exact.PersLandscapeExact"
 
@@ -72,7 +72,7 @@ def run(project: Project, rep, tier: str):
     if fi is None or init is None:
         raise AnalysisError("LX: compute_landscape/__init__ not found")
     rep.analysed(fi)
-    f = fi.node
+    f = fn_view(project, fi)
     locs = local_names(f)
     # ---------------- LX-COPY
     oa = own_analysis(project)
@@ -168,11 +168,18 @@ def run(project: Project, rep, tier: str):
     B = {sym.Sym(n) for n in births}
     Dd = {sym.Sym(n) for n in deaths}
     emitted = 0
-    for c in ast.walk(f):
-        if not (isinstance(c, ast.Call) and isinstance(c.func, ast.Attribute) and c.func.attr in ("extend", "append")):
-            continue
+    carriers = [c for c in ast.walk(f) if isinstance(c, ast.Call) and isinstance(c.func, ast.Attribute)
+                and c.func.attr in ("extend", "append")]
+    # a depth list may also start life as a literal list of points: lam = [[-inf, 0], [b, 0], [(b+d)/2, (d-b)/2]]
+    carriers += [n.value for n in ast.walk(f) if isinstance(n, ast.Assign) and isinstance(n.value, ast.List) and n.value.elts
+                 and all(isinstance(e, ast.List) and len(e.elts) == 2 for e in n.value.elts)]
+    seen_pairs = set()
+    for c in carriers:
         for pair in ast.walk(c):
+            if id(pair) in seen_pairs:
+                continue
             if isinstance(pair, ast.List) and len(pair.elts) == 2 and not any(isinstance(e, (ast.List, ast.Tuple)) for e in pair.elts):
+                seen_pairs.add(id(pair))
                 used = {x.id for x in ast.walk(pair) if isinstance(x, ast.Name)}
                 if not (used & names) and not any(isinstance(x, ast.Attribute) and x.attr == "inf" for x in ast.walk(pair)):
                     continue
@@ -294,16 +301,36 @@ def run(project: Project, rep, tier: str):
                                                          f"by leaving the loop at once")
     # ---------------- LX-DEG
     rep.analysed(init)
-    sel = [n for n in ast.walk(init.node) if isinstance(n, ast.Assign) and isinstance(n.targets[0], ast.Attribute)
-           and n.targets[0].attr == "dgms" and isinstance(n.value, ast.Subscript)]
-    if sel and ast.unparse(sel[0].value.slice) in ("self.hom_deg", "hom_deg"):
-        rep.discharged("LX-DEG", init, sel[0], "the requested homological degree selects the diagram")
-    elif sel:
-        rep.refuted("LX-DEG", init, sel[0], f"the diagram is selected with index {ast.unparse(sel[0].value.slice)}, not the "
-                                            f"requested degree")
-    else:
-        rep.refuted("LX-DEG", init, init.node, "the constructor no longer selects the diagram of the requested degree",
+    # decided by executing the constructor symbolically (compute=False) on a two-diagram list for degree 0 and 1
+    from ..core.values import Arr, Seq
+    from .distances import dgm_input
+    verdicts = []
+    for deg in (0, 1):
+        I = Interp(project, Config(nonempty={("rows", "H0"), ("rows", "H1")}, finite_inputs={"H0", "H1"}))
+        dg = [dgm_input("H0"), dgm_input("H1")]
+        try:
+            obj = I.construct(CL, [], {"dgms": Seq(list(dg), "list"), "hom_deg": Sc(sym.Num(deg)), "compute": Sc(sym.FALSE)}, None)
+            got = obj.attrs.get("dgms")
+        except Exception as ex:
+            got = None
+        if isinstance(got, Arr) and got.ndim == 2:
+            names = {x[1] for x in sym.walk(got.elem) if x[0] == "in"}
+            verdicts.append((deg, names == {f"H{deg}"}, names))
+        else:
+            verdicts.append((deg, None, got))
+    stores = [n for n in ast.walk(fn_view(project, init)) if isinstance(n, ast.Assign) and isinstance(n.targets[0], ast.Attribute)
+              and n.targets[0].attr == "dgms"]
+    node = stores[0] if stores else init.node
+    if all(v[1] is True for v in verdicts):
+        rep.discharged("LX-DEG", init, node, "the requested homological degree selects the diagram (degrees 0 and 1 of a "
+                                             "two-diagram list select H0 and H1)")
+    elif any(v[1] is False for v in verdicts):
+        d_, _, names = [v for v in verdicts if v[1] is False][0]
+        rep.refuted("LX-DEG", init, node, f"for hom_deg={d_} the constructor stores diagram(s) {sorted(names)} instead of H{d_}: "
+                                          f"the diagram is not selected by the requested degree",
                     construct=f"{init.qualname}: degree selection")
+    else:
+        rep.unmodelled("LX-DEG", init, node, f"stored diagram not modelled: {verdicts[0][2]!r}"[:200])
     infs = [n for n in ast.walk(f) if isinstance(n, ast.If) and "inf" in ast.unparse(n.test)]
     for n in infs[:1]:
         t = n.test
@@ -311,7 +338,7 @@ def run(project: Project, rep, tier: str):
             rep.discharged("LX-DEG", fi, n, "trailing infinite bar is detected on the death column")
         else:
             rep.refuted("LX-DEG", fi, n, f"the infinite-bar test `{ast.unparse(t)}` does not look at the death column")
-    for rn, n in (("LX-COPY", 1), ("LX-SORT", 1), ("LX-ITER", 2), ("LX-DEG", 2), ("LX-NOCOPY", 1)):
+    for rn, n in (("LX-COPY", 1), ("LX-SORT", 1), ("LX-ITER", 1), ("LX-DEG", 2), ("LX-NOCOPY", 1)):
         rep.floor(rn, n)
 
 
